@@ -22,7 +22,7 @@ from .gwtrace import _parse_rejected
 PID = "C20"
 COMBOS = [("serial", "sync"), ("tcp", "sync"), ("serial", "async"), ("tcp", "async")]
 ENV = {"Start", "ReadError", "WriteError", "PeerClose", "Answer", "Tick"}
-SYS = ("Attempt", "Watchdog", "DialBegin")
+SYS = ("Attempt", "Watchdog", "DialBegin")      # (a DialEnd forced by the connect timeout is played as its own step)
 
 
 def behaviours(wd, dev, fl, num, depth, seed, focus="all"):
@@ -114,8 +114,10 @@ def play(args):
                 probe_after_stop = True
             elif name == "DialEnd":
                 if not L.release(a["ok"]):
-                    i = j       # the dial was cancelled (asyncio stop()): nothing ends, the event does not exist
-                    continue
+                    if L.w.stopped_at is not None or a["ok"]:
+                        i = j       # the dial was cancelled (asyncio stop()): nothing ends, the event does not exist
+                        continue
+                    # (not stopped, no dial pending any more: the asyncio connect timeout has ended it - the event stands)
             elif name in SYS:
                 pass            # a behaviour never starts a group with a system action except after Init; tolerated
             if not fed and L.live() and idx % 2 == 0:
